@@ -160,6 +160,8 @@ class NpCalls:
             out = out.w(tuple_of=a0.tuple_of, axes=(XYZ,))
         if a0.geo is not None and out.geo is None:
             out = out.w(geo=a0.geo)
+        if a0.boxof is not None:
+            out = out.w(boxof=a0.boxof)
         dt = kwargs.get('dtype')
         if dt is not None:
             out = out.w(dtype=dt.name if dt.ty == 'builtin' else (dt.qual or '').split('.')[-1] or None)
